@@ -58,6 +58,19 @@ macro_rules! gh_obj {
     }};
 }
 
+/// the same bytes at a different address: a copy that starts `off` bytes into a fresh 16-byte-aligned allocation
+fn shifted(msg: &[u8], off: usize) -> (Vec<u128>, usize) {
+    let words = (msg.len() + off + 15) / 16 + 1;
+    let mut backing = vec![0u128; words];
+    let bytes: &mut [u8] = unsafe { std::slice::from_raw_parts_mut(backing.as_mut_ptr() as *mut u8, words * 16) };
+    bytes[off..off + msg.len()].copy_from_slice(msg);
+    (backing, off)
+}
+fn shifted_slice<'a>(b: &'a (Vec<u128>, usize), len: usize) -> &'a [u8] {
+    let bytes: &[u8] = unsafe { std::slice::from_raw_parts(b.0.as_ptr() as *const u8, b.0.len() * 16) };
+    &bytes[b.1..b.1 + len]
+}
+
 pub fn check(c: &Case) -> Result<(), String> {
     match c {
         Case::GenericHash { outlen, key, msg } => {
@@ -93,6 +106,36 @@ pub fn check(c: &Case) -> Result<(), String> {
                     hx(&s)
                 ));
             }
+            {
+                let off = 1 + msg.len() % 15;
+                let b = shifted(msg, off);
+                let mut o2 = vec![0u8; *outlen];
+                let _ = crypto_generichash(&mut o2, shifted_slice(&b, msg.len()), keyb);
+                if o2 != s {
+                    return Err(format!("generichash of a {}-byte input starting {off} bytes past a 16-byte boundary differs", msg.len()));
+                }
+            }
+            // object API with a Vec key under a KEY_LENGTH parameter that differs from the key's length: the key IS
+            // the Vec's bytes; if the call succeeds it must be the BLAKE2b of that key (never of a truncated one)
+            if let Some(kv) = key.as_ref().map(|k| &k.0) {
+                if kv.len() != 32 && *outlen == 32 {
+                    use dryoc::generichash::GenericHash;
+                    if let Ok(Ok(d)) = no_panic(|| GenericHash::<32, 32>::hash_to_vec(&msg.0, Some(kv))) {
+                        if d != s {
+                            return Err(format!("GenericHash::<32, 32>::hash with a {}-byte Vec key returned {} but BLAKE2b with that key is {}", kv.len(), hx(&d), hx(&s)));
+                        }
+                    }
+                    if let Ok(Ok(d)) = no_panic(|| -> Result<Vec<u8>, dryoc::Error> {
+                        let mut h = GenericHash::<32, 32>::new(Some(kv))?;
+                        h.update(&msg.0);
+                        h.finalize_to_vec()
+                    }) {
+                        if d != s {
+                            return Err(format!("GenericHash::<32, 32>::new/update/finalize with a {}-byte Vec key returned {} but BLAKE2b with that key is {}", kv.len(), hx(&d), hx(&s)));
+                        }
+                    }
+                }
+            }
             // object API for the const-generic instantiations that match this shape
             let kl = keyb.map(|k| k.len());
             let kv = key.as_ref().map(|k| &k.0);
@@ -122,6 +165,15 @@ pub fn check(c: &Case) -> Result<(), String> {
             }
             if out != s {
                 return Err(format!("sha512(len {}) = {} expected {}", msg.len(), hx(&out), hx(&s)));
+            }
+            {
+                let off = 1 + msg.len() % 15;
+                let b = shifted(msg, off);
+                let mut o2 = [0u8; 64];
+                crypto_hash_sha512(&mut o2, shifted_slice(&b, msg.len()));
+                if o2 != s {
+                    return Err(format!("sha512 of a {}-byte input starting {off} bytes past a 16-byte boundary differs", msg.len()));
+                }
             }
             let o: Vec<u8> = dryoc::sha512::Sha512::compute_to_vec(&msg.0);
             let o2: StackByteArray<64> = dryoc::sha512::Sha512::compute(msg.0.as_slice());
@@ -331,6 +383,15 @@ pub fn check(c: &Case) -> Result<(), String> {
             }
             if out != s {
                 return Err(format!("crypto_shorthash(len {}) = {} expected {}", msg.len(), hx(&out), hx(&s)));
+            }
+            // the result must not depend on where the input lives (every alignment of the start address mod 16)
+            for off in 0..16 {
+                let b = shifted(msg, off);
+                let mut o2 = [0u8; 8];
+                crypto_shorthash(&mut o2, shifted_slice(&b, msg.len()), &k);
+                if o2 != s {
+                    return Err(format!("crypto_shorthash of a {}-byte input starting {off} bytes past a 16-byte boundary = {} expected {}", msg.len(), hx(&o2), hx(&s)));
+                }
             }
             Ok(())
         }
@@ -653,7 +714,7 @@ pub fn gen_cases(seed: u64, tier: Tier) -> Vec<Case> {
 }
 
 pub fn run(ctx: &mut Ctx) -> Result<(), Violation> {
-    ctx.rule = "Deterministic enumeration: every input length 0..=1100 x content classes {random,0x00,0xff,counter,0x80..01} for SHA-512, HMAC-SHA-512-256, Poly1305, SipHash-2-4, BLAKE2b (full 49x(1+49) digest x key grid at lengths {0,1,127,128,129,255,256,257}, a seeded slice elsewhere, out-of-range lengths 0..=80), little-endian increment (carry runs, wrap), HSalsa20/HChaCha20 (default and custom constants); Poly1305 adversarial operands: extreme r/s, and messages whose last block is SOLVED with big-integer arithmetic so the accumulator lands on 0..6, p-1..p-3, 2^44/64/88/128/129 (+-1), 2^130-6, with s chosen to wrap 2^128. Oracle: dryoc == libsodium == harness spec model (3-way), verify accepts the right tag and rejects every single-bit flip, every two-bit flip, rotations / reversal / complement of the tag and random tags, in classic and object APIs. Non-trivial: input longer than one block of the primitive, adversarial Poly1305 operand, or non-default digest/key length; distinct = hash(primitive, params, input).".into();
+    ctx.rule = "Deterministic enumeration: every input length 0..=1100 x content classes {random,0x00,0xff,counter,0x80..01} for SHA-512, HMAC-SHA-512-256, Poly1305, SipHash-2-4, BLAKE2b (full 49x(1+49) digest x key grid at lengths {0,1,127,128,129,255,256,257}, a seeded slice elsewhere, out-of-range lengths 0..=80), little-endian increment (carry runs, wrap), HSalsa20/HChaCha20 (default and custom constants); Poly1305 adversarial operands: extreme r/s, and messages whose last block is SOLVED with big-integer arithmetic so the accumulator lands on 0..6, p-1..p-3, 2^44/64/88/128/129 (+-1), 2^130-6, with s chosen to wrap 2^128. Inputs are also presented at every start-address alignment mod 16 (SipHash) / a length-derived misalignment (SHA-512, BLAKE2b); the object-API generic hash also gets Vec keys whose length differs from KEY_LENGTH (if accepted, the result must be BLAKE2b under the whole key). Oracle: dryoc == libsodium == harness spec model (3-way), verify accepts the right tag and rejects every single-bit flip, every two-bit flip, rotations / reversal / complement of the tag and random tags, in classic and object APIs. Non-trivial: input longer than one block of the primitive, adversarial Poly1305 operand, or non-default digest/key length; distinct = hash(primitive, params, input).".into();
     ctx.assumptions = vec![
         "libsodium 1.0.18 and the harness models (pinned by RFC/FIPS vectors at start-up) are independent correct references".into(),
         "BLAKE2b inputs >= 2^64 bytes are out of reach (excluded by the property)".into(),
